@@ -2,11 +2,20 @@
    Only ExtrOcamlBasic is used (bool, option, unit, list, prod, sumbool -> OCaml natives; andb/orb/fst/snd inlined);
    nat, positive, N and Z stay the inductive Coq types. *)
 From Coq Require Import ExtrOcamlBasic.
-From BB.Model Require Channel Cleaner Buffer Callable Retry.
+From BB.Model Require Channel Cleaner Buffer Callable Retry Caster Workers Worker Attempt Context PubSubSanity.
 Separate Extraction
   Channel.init Channel.step Channel.run Channel.spec_init Channel.spec_step Channel.spec_run Channel.abs
   Buffer.init Buffer.step Buffer.step_settled Buffer.run Buffer.clean Buffer.settle Buffer.buffer_range Buffer.pkg_range
   Buffer.erun Buffer.getc Buffer.log
   Callable.call Callable.valid Callable.nilable Callable.expected_args Callable.expected_stores
   Retry.run_seam Retry.run Retry.calc_exact Retry.slot_ok Retry.max_shift_go Retry.default_rate_go Retry.OSuccess Retry.OFatal Retry.OPlain Retry.faithful
+  Caster.add Caster.send_begin Caster.send_end Caster.send_end_cas Caster.hi Caster.lo Caster.mkword
+  Workers.init Workers.step Workers.run Workers.picks Workers.enabled Workers.is_env Workers.is_call Workers.nocall Workers.measure Workers.terminalb Workers.run_fuel Workers.burst_result Workers.running_ids Workers.nblocked Workers.countp Workers.live Workers.running
+  Worker.init Worker.faithful Worker.step Worker.kinit Worker.kstep Worker.kobs
+  Attempt.faithful Attempt.init Attempt.step Attempt.run Attempt.kstep Attempt.krun Attempt.obs_ok Attempt.obs_of_state Attempt.impl_cap Attempt.lib_quietb
+  Context.build_env Context.chain_init Context.chain_step Context.chain_settle Context.chain_quiescent
+  Context.combine_init Context.combine_step Context.combine_settle Context.combine_ret Context.combine_quiescent
+  Context.confl_init Context.confl_step Context.confl_settle Context.confl_quiescent
+  Context.is_canc Context.vals_of Context.lookup Context.run
+  PubSubSanity.sanity_check PubSubSanity.sanity_fires PubSubSanity.add_subscribers
   Cleaner.default_cleaner Cleaner.fixed_cleaner Cleaner.clamp_shift Cleaner.default_spec.
